@@ -147,7 +147,7 @@ func checkC08(p *Prog, rp *Report) {
 		return
 	}
 	pos := p.Pos(wt.Pos())
-	atoms := []string{"text", "", "  indented", " ", "trail  ", ".", "#805204 closes"}
+	atoms := []string{"text", "", "  indented", " ", "trail  ", ".", "#805204 closes", "voil\u00e0 \u00c5"}
 	var values []string
 	var gen func(cur []string, n int)
 	gen = func(cur []string, n int) {
@@ -286,6 +286,8 @@ func checkC08(p *Prog, rp *Report) {
 			"A:\nA: x\n", "A: x\nA:\n", "A: 1\nB: 2\nA: 3\n", "A:\nB:\nA:\nB: y\n", "A: 1\n\nB: 2\nB:\n",
 			"# c\nA: 1\n# d\nB: 2\n", "A: 1\n more\n .\n last\nB: t\n", "a: 1\nA: 2\n", "A:  padded  \nB:\tt\n",
 			"A: 1\n\n\n\nB: 2\n", "A: x", "A:\n", "A: 1\nA: 1\nA: 1\n", "X-1: v\nX-1:\nX-2: w\n",
+			// lines that end in a letter whose last UTF-8 byte, taken for a rune, is white space (à = C3 A0, Å = C3 85)
+			"Name: citt\u00e0\nText: voil\u00e0\n d\u00e9j\u00e0\n \u00c5\nLast: \u00c5\n",
 		}
 		var problems []string
 		undec := ""
